@@ -1762,6 +1762,7 @@ func (p *parser) domainTextLitEx(off, end token.Pos) *ast.DomainTextLitEx {
 		sp.next()
 	}
 	sp.expect(token.SEMICOLON)
+	p.errors = append(p.errors, sp.errors...) // errors in the arguments are errors of the file
 	return &ast.DomainTextLitEx{
 		Args:   args,
 		RawPos: sp.pos,
